@@ -77,6 +77,25 @@ func RunProfile(profile, tier string, seed int64, out string, shards int, script
 	thorough := tier == "thorough"
 	rng := rand.New(rand.NewSource(seed*7919 + 17))
 	switch profile {
+	case "genscript", "replay":
+		s, err := newShards(out, profile, shards)
+		if err != nil {
+			return nil, err
+		}
+		var n int
+		if profile == "genscript" {
+			n, err = RunGenScripts(s, script)
+		} else {
+			n, err = ReplayTrace(s, script)
+		}
+		if err != nil {
+			return nil, err
+		}
+		st, err := s.finish(profile, BuiltinTypes)
+		if st != nil {
+			st.Extra["scripts"] = n
+		}
+		return st, err
 	case "quant", "floatfix", "fixfloat", "floatfloat", "depth", "freq":
 		return runNumProfile(profile, thorough, seed, out, shards)
 	case "poolseq", "poolforeign", "poolconc", "poolcycle":
